@@ -65,7 +65,7 @@ def replayLive (j : Json) : R Verdict := do
     pf := pf ++ [s!"C17: a real/integer parameter with scale >= 1 did not change in any of {outs.length} mutations at probability 1 (path {stuck.head!.reverse})"]
   if (outs.map (fun o => stuckNum s vi o [])).any (!·.isEmpty) then tags := "numeric-leaf-stuck-once" :: tags
   let kind := if !pf.isEmpty then "PROPFAIL" else if dis.isSome then "DISAGREE" else "ok"
-  return { case, kind, props := if pf.isEmpty then [] else ["C17"], what := (pf.head?.getD (dis.getD "")), tags := "live" :: tags,
+  return { case, kind, props := if pf.isEmpty then [] else ["C17"], what := (pf.head?.getD (dis.getD "")), tags := "live" :: tags, dis := dis.getD "",
            size := outs.length, fails := pf }
 
 /-- K-mix: crossover at crossover probability 1 on parents that differ everywhere -/
